@@ -370,7 +370,119 @@ static size_t exact_size(const Obj& o, const Variant& v) {
     return tmp.written();
 }
 
+// ---------------------------------------------------------------- CallbackBuffer (memory/callback_buffer.hpp)
+// Objects are built into buffer() and committed; flush(), possibly_flush(), read() and set_callback() in a generated order. Model: the
+// items not yet handed out. Oracle: every buffer handed out (to the callback or by read()) is well-formed and holds exactly the items
+// committed since the previous hand-out, in order; flush() hands out iff a callback is set and something is committed; possibly_flush()
+// only when more than max_buffer_size bytes are committed; nothing is delivered twice or lost.
+static void callback_buffer_history(vp::Src& s) {
+    const size_t initial = 64 + 8 * s.draw(s.chance(1, 2) ? 40 : 2000);
+    const size_t maxsize = s.chance(1, 3) ? 8 * s.draw(60) : 8 * s.draw(2500);
+    std::vector<std::vector<Obj>> delivered;  // by the callback, one entry per call
+    std::vector<std::string> problems;
+    auto callback = [&](Buffer&& b) {
+        try {
+            delivered.push_back(walker::walk(b.data(), b.committed()));
+        } catch (const walker::Error& e) {
+            problems.push_back(std::string{"buffer given to the callback is not well-formed: "} + e.what());
+        }
+        if (b.written() != b.committed()) problems.push_back("buffer given to the callback carries uncommitted data");
+    };
+    const bool with_cb_at_start = s.boolean();
+    osmium::memory::CallbackBuffer cb = with_cb_at_start ? osmium::memory::CallbackBuffer{callback, initial, maxsize} : osmium::memory::CallbackBuffer{initial, maxsize};
+    bool has_cb = with_cb_at_start;
+    std::vector<Obj> waiting;  // committed, not handed out yet
+    std::string history = "CallbackBuffer initial=" + std::to_string(initial) + " max=" + std::to_string(maxsize) + (has_cb ? " callback" : "");
+    size_t handouts = 0;
+    auto expect_handout = [&](const std::vector<Obj>& got, const std::string& after) {
+        VP_CHECK(got.size() == waiting.size(), "callback-buffer", "after " << after << ": the buffer handed out holds " << got.size() << " items, " << waiting.size() << " were committed since the last hand-out | " << history);
+        for (size_t i = 0; i < got.size(); ++i)
+            if (got[i] != waiting[i]) vp::fail("callback-buffer", "after " + after + ": item #" + std::to_string(i) + " of the buffer handed out differs (" + model::diff(waiting[i], got[i]) + ") | " + history);
+        waiting.clear();
+        ++handouts;
+    };
+    const size_t steps = 1 + s.draw(60);
+    for (size_t step = 0; step < steps; ++step) {
+        const size_t before = delivered.size();
+        const size_t committed_before = cb.buffer().committed();
+        std::string name;
+        switch (s.weighted({8, 4, 3, 2, 2})) {
+            case 0: {
+                Obj o = gen_obj(s);
+                Variant v = gen_variant(s);
+                Probe pr{cb.buffer()};
+                build_into(cb.buffer(), o, v, pr);
+                cb.buffer().commit();
+                waiting.push_back(o);
+                name = "build+commit";
+                history += " b";
+                break;
+            }
+            case 1:
+                cb.possibly_flush();
+                name = "possibly_flush";
+                history += " p";
+                if (has_cb && committed_before > maxsize) {
+                    VP_CHECK(delivered.size() == before + 1, "callback-buffer", "possibly_flush() with " << committed_before << " committed bytes (max " << maxsize << ") did not call the callback | " << history);
+                    expect_handout(delivered.back(), name);
+                    vp::count("callback_buffer_flush_by_size");
+                } else {
+                    VP_CHECK(delivered.size() == before, "callback-buffer", "possibly_flush() with " << committed_before << " committed bytes (max " << maxsize << ", callback " << (has_cb ? "set" : "not set") << ") called the callback | " << history);
+                }
+                break;
+            case 2:
+                cb.flush();
+                name = "flush";
+                history += " f";
+                if (has_cb && committed_before > 0) {
+                    VP_CHECK(delivered.size() == before + 1, "callback-buffer", "flush() with committed data and a callback did not call it exactly once (" << (delivered.size() - before) << " calls) | " << history);
+                    expect_handout(delivered.back(), name);
+                } else {
+                    VP_CHECK(delivered.size() == before, "callback-buffer", "flush() called the callback although " << (has_cb ? "nothing was committed" : "no callback is set") << " | " << history);
+                }
+                break;
+            case 3: {
+                Buffer b = cb.read();
+                name = "read";
+                history += " r";
+                std::vector<Obj> got;
+                try {
+                    got = walker::walk(b.data(), b.committed());
+                } catch (const walker::Error& e) {
+                    vp::fail("callback-buffer", std::string{"buffer returned by read() is not well-formed: "} + e.what() + " | " + history);
+                }
+                VP_CHECK(delivered.size() == before, "callback-buffer", "read() called the callback | " << history);
+                expect_handout(got, name);
+                break;
+            }
+            default:
+                has_cb = !has_cb;
+                if (has_cb) cb.set_callback(callback);
+                else cb.set_callback();
+                name = has_cb ? "set_callback" : "clear_callback";
+                history += has_cb ? " C" : " c";
+                break;
+        }
+        if (!problems.empty()) vp::fail("callback-buffer", problems[0] + " (after " + name + ") | " + history);
+        // what is still inside is exactly what is waiting
+        std::vector<Obj> inside;
+        try {
+            inside = walker::walk(cb.buffer().data(), cb.buffer().committed());
+        } catch (const walker::Error& e) {
+            vp::fail("callback-buffer", "after " + name + ": content of buffer() is not well-formed: " + e.what() + " | " + history);
+        }
+        VP_CHECK(inside == waiting, "callback-buffer", "after " << name << ": buffer() holds " << inside.size() << " items, " << waiting.size() << " are waiting | " << history);
+    }
+    if (vp::want_desc()) vp::describe(history);
+    vp::count("callback_buffer_history");
+    if (handouts >= 2) vp::nontrivial(vp::hash_str(history));
+}
+
 static void prop(vp::Src& s) {
+    if (s.chance(1, 8)) {
+        callback_buffer_history(s);
+        return;
+    }
     Sut t;
     t.mode = static_cast<int>(s.weighted({1, 2, 2}));
     {
